@@ -199,3 +199,6 @@ func (s *Sock) TakeError() std.Errno {
 	s.errOnce = 0
 	return e
 }
+
+// DgramAt returns the datagram socket bound to an address.
+func (k *Kernel) DgramAt(a *Addr) *Sock { return k.dgramByAddr[a.key()] }
